@@ -9,10 +9,10 @@ import numpy as np
 from ..common import run_driver, seed_rng
 from ..qnum import installed
 from ..sllib import TIME_LATTICE, Fixture, random_space_intervals, result_str
-from ..slchecks import RealOps, describe, make_curve, ok_aspect, seam_and_corner_pairs, StubElem
+from ..slchecks import RealOps, corr_panels, describe, make_curve, ok_aspect, seam_and_corner_pairs, StubElem, with_generated
 from .C04 import translate  # noqa: F401
 
-PROP_MODS = ['Stbem.Props.C12']
+PROP_MODS = ['Stbem.Props.C12', 'Stbem.Props.PanelsTie']
 RULE = ('correspondence (exact): exchange of the space intervals (times fixed), common shift of both time intervals and '
         'reflection x -> L - x of both elements through the real bilform on Q numbers: exchange and shift must give '
         'the identical rational, every value must equal the model. search (floats, symmetric uniformly refined meshes '
@@ -22,6 +22,9 @@ RULE = ('correspondence (exact): exchange of the space intervals (times fixed), 
 TRUSTED = [
     'Lean 4.33 kernel; axioms propext, Classical.choice, Quot.sound only',
     'translate/formulas.py + exact correspondence as in C01',
+    'control flow of __integrate / bilform / evaluate / MP_SL_matrix_col regenerated from the source on every run '
+    '(translate/panels.py -> lean/Stbem/Gen/Panels.lean) and proved equal to the hand-written model for all inputs '
+    '(Props/PanelsTie.lean); the translator is validated on every run by exact execution of the real methods',
     'rotation invariance for the true kernel moves a pair across the seam and changes the panel decomposition: it '
     'holds only up to quadrature error (search only, partial)',
 ]
@@ -58,6 +61,7 @@ def correspond(res, tier):
                         lines.append('sl bil %d %s %s' % (pw, tr.encode(), te.encode()))
                         expect.append(v)
                     pairs.append((vals, curve, pw, xa, xb, ta, tb))
+            with_generated(lines, expect)   # `sl genbil`: the bilform regenerated from the source (Gen/Panels.lean)
             out = run_driver(lines)
             for line, want, got in zip(lines, expect, out):
                 got = 'err' if got.startswith('err') else got
@@ -73,6 +77,7 @@ def correspond(res, tier):
                 if vals[2] != vals[0]:
                     res.violation('C12:time-shift-changes-entry:exact', dict(curve=curve_, pw_exact=pw_, original=vals[0][:80], shifted=vals[2][:80]))
     res.sample(dict(symmetries=['exchange space intervals', 'shift both time intervals', 'rotate', 'reflect']))
+    corr_panels(res, tier, 'C12p', curves=('unitsquare', 'rect32', 'lshape'))
 
 
 class Stub:
